@@ -467,7 +467,7 @@ def check_C05(tier, seed, replay=None):
 
 
 def check_C06(tier, seed, replay=None):
-    return ref_family_check("C06", tier, seed, [("func", 4000), ("epoch:func", 600)], [("func", 80000), ("deep", 20000), ("epoch:func", 15000)])
+    return ref_family_check("C06", tier, seed, [("func", 4000), ("epoch:func", 600), ("hist", 500)], [("func", 80000), ("deep", 20000), ("epoch:func", 15000), ("hist", 10000)])
 
 
 def check_C18(tier, seed, replay=None):
